@@ -12,6 +12,8 @@ import IcontractModel.Spec.ChainHistory
 import IcontractModel.Lemmas.ChainLemmas
 import IcontractModel.Spec.DagHistory
 import IcontractModel.Lemmas.DagLemmas
+import IcontractModel.Spec.DagHistoryInv
+import IcontractModel.Lemmas.DagInvLemmas
 namespace Icontract.Meta
 
 /-- **Collapse rule** (`_decorate_namespace_function`, inherited members): when the collapse is
@@ -168,6 +170,40 @@ example :
 example : HistWf [⟨[], [("m", ⟨10, [1], [7]⟩)]⟩, ⟨[1], [("m", ⟨12, [2], []⟩)]⟩, ⟨[1], []⟩,
                   ⟨[2, 3], [("m", ⟨14, [3, 4], [5]⟩)]⟩] := by
   unfold HistWf
+  decide
+
+/-! ### class invariants over inheritance graphs of any shape -/
+
+/-- **The invariants of a class are exactly those its ancestors (and itself) declare** - over an arbitrary inheritance
+graph, for each of the three lists (`__invariants__`, `__invariants_on_call__`, `__invariants_on_setattr__`), as sets:
+nothing is lost (every ancestor's invariant binds the class: Liskov), and nothing foreign arrives (an invariant declared on a
+class that is not among the ancestors - a sibling, a subclass, an unrelated class - never appears: C17 separation).
+In diamonds an ancestor's invariant may be listed more than once; the statement is about membership. -/
+theorem C04_dag_invariants_are_the_ancestors (ds : List ClassDefI) (hwf : HistWfI ds) (w : World)
+    (h : buildHistI {} 1 ds = .ok w) :
+    ∀ i (hi : i < ds.length) (d : InvDunder) (c : CId),
+      c ∈ invOf w (i + 1) d ↔ ∃ a ∈ mroOf w (i + 1), c ∈ ownInvOn ds (a - 1) d :=
+  buildHistI_observe ds hwf w h
+
+/-- non-vacuity: a diamond whose classes declare invariants for different events, evaluated by the kernel -/
+example :
+    (match buildHistI {} 1 [⟨[], [("m", ⟨10, [1], [7]⟩)], [(100, ⟨true, false⟩)]⟩,
+                            ⟨[1], [("m", ⟨12, [2], []⟩)], [(101, ⟨false, true⟩), (102, ⟨true, true⟩)]⟩,
+                            ⟨[1], [], []⟩,
+                            ⟨[2, 3], [("n", ⟨14, [], [5]⟩)], [(103, ⟨true, false⟩)]⟩] with
+     | .ok w => (invOf w 4 .all, invOf w 4 .onCall, invOf w 4 .onSetattr, invOf w 3 .all, invOf w 2 .all, mroOf w 4)
+     | .error _ => ([], [], [], [], [], [])) =
+    ([100, 101, 102, 100, 103], [100, 102, 100, 103], [101, 102], [100], [100, 101, 102], [4, 2, 3, 1]) := by
+  -- `add_invariant_checks` inspects member names with `String.startsWith`, which the elaborator's evaluator does not
+  -- unfold: the proposition is decided by kernel reduction (plain definitional unfolding, no compiled code, no axiom)
+  decide +kernel
+
+/-- ... and this history is well-formed, so the hypotheses of the theorem are satisfiable -/
+example : HistWfI [⟨[], [("m", ⟨10, [1], [7]⟩)], [(100, ⟨true, false⟩)]⟩,
+                   ⟨[1], [("m", ⟨12, [2], []⟩)], [(101, ⟨false, true⟩), (102, ⟨true, true⟩)]⟩,
+                   ⟨[1], [], []⟩,
+                   ⟨[2, 3], [("n", ⟨14, [], [5]⟩)], [(103, ⟨true, false⟩)]⟩] := by
+  unfold HistWfI
   decide
 
 end Icontract.Meta
